@@ -49,7 +49,7 @@ InitState(p) ==
   LET P == Progs[p] IN
   [p |-> p, n |-> 1, ix |-> <<0>>, pc |-> <<1>>, ph |-> <<"ready">>, fin |-> <<FALSE>>,
    acc |-> <<0>>, retv |-> <<0>>, ind |-> <<0>>, wk |-> <<FALSE>>, xr |-> <<FALSE>>,
-   tok |-> <<FALSE>>, unpk |-> <<FALSE>>, gd |-> << [i \in 1..NSlots |-> NoGuard] >>,
+   tok |-> <<FALSE>>, unpk |-> <<FALSE>>, cvgot |-> << [kind |-> "n", ep |-> 0] >>, gd |-> << [i \in 1..NSlots |-> NoGuard] >>,
    cur |-> -1, slen |-> 0, rst |-> 0, panicked |-> "", rv |-> 0,
    mh |-> [m \in 1..P.nmutex |-> -1], md |-> [m \in 1..P.nmutex |-> 0], mpz |-> [m \in 1..P.nmutex |-> FALSE],
    av |-> [a \in 1..Len(P.atomics) |-> P.atomics[a]],
@@ -61,7 +61,7 @@ InitState(p) ==
                                        q |-> <<>>, granted |-> {}, held |-> 0]],
    bar |-> [b \in 1..Len(P.barriers) |-> [n |-> P.barriers[b], arrived |-> {}, rel |-> {}, gen |-> 0]],
    \* program-declared Once cells, then two `static` Once cells, then the hidden cells of two lazy statics
-   once |-> [x \in 1..(P.nonce + 4) |-> [st |-> "idle", owner |-> -1]],
+   once |-> [x \in 1..(P.nonce + 4) |-> [st |-> "idle", owner |-> -1, doneby |-> -1]],
    lzv |-> <<0, 0>>, lzdropped |-> {},
    tls |-> << <<>> >>, dty |-> <<FALSE>>, nm |-> <<-2>>, sc |-> << {} >>,
    \* async: hand-written waker slots, JoinHandle slots, abort / detach marks
@@ -114,9 +114,10 @@ HasSignal(s, c, t) == InCv(s, c, t) /\ (CvEntry(s, c, t).bc \/ CvEntry(s, c, t).
 Consume(s, c, t) ==
   LET w == CvEntry(s, c, t)
       rest == SelectSeq(s.cv[c+1].list, LAMBDA x : x.t # t) IN
-  IF w.bc THEN [s EXCEPT !.cv[c+1].list = rest]
+  IF w.bc THEN [s EXCEPT !.cv[c+1].list = rest, !.cvgot[t+1] = [kind |-> "b", ep |-> 0]]
   ELSE LET e == Head(w.toks) IN
-       [s EXCEPT !.cv[c+1].list = [i \in 1..Len(rest) |-> [rest[i] EXCEPT !.toks = SelectSeq(@, LAMBDA x : x # e)]]]
+       [s EXCEPT !.cv[c+1].list = [i \in 1..Len(rest) |-> [rest[i] EXCEPT !.toks = SelectSeq(@, LAMBDA x : x # e)]],
+                 !.cvgot[t+1] = [kind |-> "s", ep |-> e]]
 
 (* std mpsc *)
 Full(c) == c.cap >= 0 /\ Len(c.buf) >= Max(c.cap, 1)
@@ -240,7 +241,7 @@ Complete(s, t) ==
          R(IF o.k = "spawn_future" THEN 0 ELSE s.n, [base EXCEPT !.n = @ + 1, !.ix = Append(@, o.v), !.pc = Append(@, 1), !.ph = Append(@, "ready"),
                              !.fin = Append(@, FALSE), !.acc = Append(@, 0), !.retv = Append(@, 0), !.ind = Append(@, 0),
                              !.wk = Append(@, FALSE), !.xr = Append(@, FALSE), !.tok = Append(@, FALSE),
-                             !.unpk = Append(@, FALSE), !.gd = Append(@, [i \in 1..NSlots |-> NoGuard]),
+                             !.unpk = Append(@, FALSE), !.cvgot = Append(@, [kind |-> "n", ep |-> 0]), !.gd = Append(@, [i \in 1..NSlots |-> NoGuard]),
                              !.tls = Append(@, <<>>), !.dty = Append(@, FALSE),
                              !.inpoll = Append(@, FALSE), !.det = Append(@, FALSE), !.ab = Append(@, FALSE), !.canc = Append(@, FALSE),
                              !.hasres = Append(@, FALSE), !.resv = Append(@, 0), !.jw = Append(@, -1), !.jtaken = Append(@, FALSE),
@@ -495,7 +496,7 @@ BlockRaw(s, t) ==
          ELSE SetPh(s, t, "once_body")
     [] p = "once_body" ->   \* the initializer's visible effect, then completion is recorded
          LET s1 == IF o.k \in OnceOps /\ o.w >= 0 THEN [s EXCEPT !.av[o.w+1] = o.v % 256] ELSE s IN
-         [s1 EXCEPT !.ph[t+1] = "once_fin", !.once[OIdx(s, t)+1].st = "done"]
+         [s1 EXCEPT !.ph[t+1] = "once_fin", !.once[OIdx(s, t)+1].st = "done", !.once[OIdx(s, t)+1].doneby = t]
     \* a lazy static: the internal lock is released, the access itself follows
     [] p \in {"once_skip", "once_fin"} -> SetPh(OnceRelease(s, OIdx(s, t)), t, "lz_go")
 
